@@ -374,7 +374,7 @@ def gen_history_case(rng, seed, corr_profile=False):
     case = {"seed": seed, "okind": rng.choice(mc.OFFSET_KINDS), "g": rng.choice([8, 12] if small else [8, 12, 16, 24, 32, 48]),
             "sources": sources, "corr": [], "small": small,
             "defs": mc.gen_defs(rng, k, allow_div=allow_div, depth=2 if small else 3),
-            "method": rng.choice(["global", "own"]), "ops": []}
+            "method": rng.choice(["global", "own"]), "ops": [], "pre_read": rng.random() < 0.3}
     if tiny:
         case["defs"] = [rng.choice([["sqrtsq", ["var", 0]], ["add", ["sqrtsq", ["var", 0]], ["cst", fx(1.0)]],
                                     ["mul", ["sqrtsq", ["var", 0]], ["var", 0]]])]
@@ -391,6 +391,7 @@ def gen_history_case(rng, seed, corr_profile=False):
     with mc.patched_normal(script):
         try:
             sess = mc.Session(case)
+            prelude = len(script.calls)
             for _ in range(rng.randint(5, 26)):
                 o = gen_op(rng, sess, case)
                 case["ops"].append(o)
@@ -401,7 +402,7 @@ def gen_history_case(rng, seed, corr_profile=False):
                     why = why or sensitive_now(sess, exact_formula)
         finally:
             mc.reset_globals()
-    run = {"obs": obs, "calls": script.calls, "order": sess.order, "pos": sess.pos, "srcs": sess.src_snapshot,
+    run = {"obs": obs, "calls": script.calls[prelude:], "order": sess.order, "pos": sess.pos, "srcs": sess.src_snapshot,
            "corr": sess.corr_matrix}
     return case, run, why
 
@@ -426,6 +427,8 @@ def history_features(case, run):
         tags.add(o[0])
     if len(run["calls"]) > len(run["order"]):
         tags.add("redraw")
+    if case.get("pre_read") and len(case["defs"]) > 1:
+        tags.add("intermediate-read-before-use")
     return tags
 
 
@@ -715,19 +718,26 @@ def _check_history_oracle(case, total_formula=None):
             if total_formula is None:
                 total_formula = not any(mc.tree_has(d, "div", case["defs"]) or mc.tree_has(d, "sqrtsq", case["defs"])
                                         for d in case["defs"])
-            S_prev, calls_prev, expect_redraw = None, 0, True
+            S_prev, calls_prev, expect_redraw = None, len(script.calls), True
             size_at_draw = None
+            import qexpy as q
+            own_expected = 0            # the per-quantity size the USER configured (0 = none): tracked here, not read back
+            glob_expected = q.get_settings().monte_carlo_sample_size
             for idx, o in enumerate(case["ops"]):
                 # the size a redraw triggered by this operation will use
-                own = sess.ev.settings._MonteCarloSettings__settings["monte_carlo_sample_size"]
-                import qexpy as q
-                eff_before = own if own else q.get_settings().monte_carlo_sample_size
+                eff_before = own_expected if own_expected else glob_expected
                 if o[0] == "mutate" and (o[1] >= len(sess.handed) or o[2] >= len(sess.handed[o[1]])):
                     continue
                 ob, wpd, w10 = sess.step(o)
                 if ob == ["exn", "Timeout"]:
                     return "step {} {}: the call does not return".format(idx, o)
                 ok = ob[0] != "exn"
+                if o[0] == "set_size" and ok:
+                    own_expected = pv_num(o[1])
+                elif o[0] == "reset_size":
+                    own_expected = 0
+                elif o[0] == "set_gsize":
+                    glob_expected = o[1]
                 if o[0] == "use_custom":
                     if ok:
                         sess.tracker.custom = (pv_num(o[1]), pv_num(o[2]))
@@ -748,10 +758,18 @@ def _check_history_oracle(case, total_formula=None):
                 if o[0] in ("recalc", "reset_size") or (o[0] == "set_size" and ok):
                     if not drew:
                         return "step {} {}: no new samples were drawn".format(idx, o)
-                    g_now = q.get_settings().monte_carlo_sample_size
-                    want = (pv_num(o[1]) or g_now) if o[0] == "set_size" else (g_now if o[0] == "reset_size" else eff_before)
+                    want = own_expected if own_expected else glob_expected
                     if total_formula and len(S) != want:
-                        return "step {} {}: {} samples retrieved, configured size is {}".format(idx, o, len(S), want)
+                        return ("step {} {}: {} samples retrieved, configured size is {} ({}, global size {})".format(
+                            idx, o, len(S), want,
+                            "per-quantity size {}".format(own_expected) if own_expected else "no per-quantity size",
+                            glob_expected))
+                    shown = sess.res.mc.sample_size
+                    if shown != want:
+                        return "step {} {}: mc.sample_size reads {}, configured size is {} ({}, global size {})".format(
+                            idx, o, shown, want,
+                            "per-quantity size {}".format(own_expected) if own_expected else "no per-quantity size",
+                            glob_expected)
                     if calls_now - calls_prev < k:
                         return "step {} {}: fewer than {} source draws".format(idx, o, k)
                 why = check_reported(sess, S)
@@ -798,7 +816,16 @@ def gen_oracle_case(rng, seed):
     ops = []
     for _ in range(rng.randint(3, 14)):
         t = rng.choices(["set_conf", "set_range", "use_mode", "use_mean_std", "use_custom", "set_size", "recalc", "samples",
-                         "mutate", "read_value", "reset_size"], weights=[5, 4, 6, 3, 3, 4, 2, 3, 3, 2, 1])[0]
+                         "mutate", "read_value", "reset_size", "set_gsize", "size_pattern"],
+                        weights=[5, 4, 6, 3, 3, 4, 2, 3, 3, 2, 2, 2, 2])[0]
+        if t == "set_gsize":
+            ops.append([t, rng.choice([20, 50, 80, 200, 1000])])
+            continue
+        if t == "size_pattern":     # un-pin (or pin), change the global size, draw again
+            first = rng.choice([["reset_size"], ["set_size", ["int", rng.choice([case["g"], 30, 64])]], ["set_size", ["int", 0]]])
+            ops += [first, ["set_gsize", rng.choice([g_ for g_ in (20, 50, 80, 200) if g_ != case["g"]])],
+                    rng.choice([["recalc"], ["recalc"], ["reset_size"]])]
+            continue
         if t == "set_conf":
             ops.append([t, rng.choice(VALID_CONF + [["float", fx(0.9)], ["float", fx(0.95)]])
                         if rng.random() < 0.85 else rng.choice(BAD_CONF)])
